@@ -1416,6 +1416,37 @@ def np_nanargmin(eng, v): return _nan_arg(eng, v, ast.Lt(), 'nanargmin')
 def np_nanargmax(eng, v): return _nan_arg(eng, v, ast.Gt(), 'nanargmax')
 
 
+def _ckdtree(eng, points, *a, **k):
+    """scipy.spatial.cKDTree, assumed contract: query(p) returns (distance, index) of a nearest stored point
+    (the first one among equally near points - scipy leaves ties unspecified)."""
+    eng.assumptions_used.add('scipy.spatial.cKDTree is external: query(p) is assumed to return (distance, index) of a nearest stored point, the first among ties')
+    pts = [q if isinstance(q, NVec) else NVec(list(eng.iterate(q))) for q in eng.iterate(points)]
+    tree = Obj(None)
+    def query(eng2, p, *a2, **k2):
+        p = p if isinstance(p, NVec) else NVec(list(eng2.iterate(p)))
+        d2 = []
+        for q in pts:
+            acc = 0
+            for u, v in zip(q.items, p.items):
+                w = binop(eng2, ast.Sub(), u, v)
+                acc = binop(eng2, ast.Add(), acc, binop(eng2, ast.Mult(), w, w))
+            d2.append(acc)
+        best = 0
+        for j in range(1, len(d2)):
+            if eng2.truth(compare(eng2, ast.Lt(), d2[j], d2[best])):
+                best = j
+        return (m_sqrt.fn(eng2, d2[best]) if isinstance(d2[best], (int, Fraction)) else _norm_of_sq(eng2, d2[best]), best)
+    tree.fields['query'] = Builtin('cKDTree.query', query)
+    tree.fields['n'] = len(pts)
+    return tree
+
+
+def _norm_of_sq(eng, d):
+    y = z3.Real(eng.fresh('norm'))
+    eng.assume(z3.And(y >= 0, y * y == to_real(d)))
+    return y
+
+
 @B('fsolve')
 def sp_fsolve(eng, f, x0, *a, **k):
     eng.assumptions_used.add('scipy.optimize.fsolve is external: it returns a 1-element array holding an unconstrained real')
@@ -1580,4 +1611,5 @@ MODULES = {
                 'exists': Builtin('os.path.exists', lambda eng, p: _fs_exists(eng, p))}, 'struct': {}, 'collections': {'Iterable': _TypeTag('Iterable', lambda x: isinstance(x, (list, tuple, NVec, str, dict, set)))},
     'collections.abc': {'Iterable': _TypeTag('Iterable', lambda x: isinstance(x, (list, tuple, NVec, str, dict, set)))},
     'scipy.optimize': {'fsolve': sp_fsolve},
+    'scipy.spatial': {'cKDTree': Builtin('cKDTree', _ckdtree)},
 }
